@@ -684,7 +684,9 @@ def canon_block(block, in_loop=False, is_loop_body=False):
     # a final `return E` after an if whose branches partly return on their own is carried into
     # the branches that reach it (every path then ends in its own return)
     if len(out) >= 2 and isinstance(out[-1], ast.Return) and isinstance(out[-2], ast.If) \
-            and _has_return([out[-2]]) and not _always_jumps([out[-2]]):
+            and _has_return([out[-2]]) and not _always_jumps([out[-2]]) \
+            and not (not out[-2].orelse and _always_jumps(out[-2].body)):
+        # (a plain guard `if c: return A` + `return B` is left to G, which also orients it)
         tail_ret = out[-1]
 
         def sink_ret(block):
